@@ -15,6 +15,7 @@ pub struct Reg {
     pub nd_clones: i64,
     pub conv_fault: bool,
     pub shape: u32,
+    pub plain_step: bool,
     pub clone_fault: Option<u32>,
     pub drop_fault: Option<u32>,
     pub closure_fault: Option<u32>,
